@@ -232,6 +232,8 @@ func execSS(p *Plan, run *core.Run) {
 			run.Violate(comp+".Share", "share-does-not-survive-marshalling", "holder %d", h)
 			return
 		}
+		core.Recycle(idb) // the disk pages are reused once the share is loaded
+		core.Recycle(vb)
 		shares[h-1] = secretsharing.Share{ID: id, Value: v}
 		run.Fault("disk:holder-restart")
 	}
@@ -369,6 +371,7 @@ func execRSA(p *Plan, run *core.Run) {
 			run.Violate(comp+".KeyShare.UnmarshalBinary", "rejects-own-encoding", "player %d: %v", h, err)
 			return
 		}
+		core.Recycle(b)
 		shares[h-1] = ks
 		run.Fault("disk:player-restart")
 	}
@@ -411,6 +414,7 @@ func execRSA(p *Plan, run *core.Run) {
 			run.Violate(comp+".SignShare.UnmarshalBinary", "rejects-own-encoding", "%v", err)
 			return
 		}
+		core.Recycle(b) // the receive buffer is reused for the next share
 		sigShares = append(sigShares, rs)
 	}
 	run.Tick(len(sigShares))
